@@ -11,6 +11,12 @@ Stage R: TLC (FlushReadGen, as-built, atomic reader) generates schedules "flush 
          COUNT and REPLAY at that moment.  Every read is compared with the property (every event
          applied before the read, exactly once; COUNT = distinct events of the selection) and
          with the as-built model's prediction.
+Stage R2: TLC (FlushReadGenR, as-built, reader NOT atomic) generates schedules in which the reader's own
+         steps - mailbox snapshot, segment listing + segment reads, lock of each snapshotted passive
+         buffer, end - interleave with stores and with every step of the flush worker; the harness forces
+         them with the reader hooks (read.mailbox_done, read.seglist_begin, read.segments_done,
+         read.passive, read.passive_done) and judges the response of the read (issued in the background,
+         joined at its end) against the property and the as-built model.
 Stage T: several client tasks STORE and read concurrently against a real engine with capacity 2
          (rotations overlap constantly, nothing parked); every read is recorded with the set of
          events acknowledged before it began and when it ended, and re-judged by TLC
@@ -23,8 +29,10 @@ from collections import Counter
 from vlib import core
 
 PROP = "C03"
+PARTIAL_POINTS = ["zonewriter.zones_written", "zonewriter.columns_written"]   # inside the flusher: the directory exists, incomplete
 HOOKS = ["flush.start", "flush.written", "flush.published", "flush.passive_cleared", "flush.wal_cleaned", "flush.done"]
-NEXT_HOOK = {"write": ("flush.start", "flush.written"), "publish": ("flush.written", "flush.published"),
+PARTIAL_ID = "C03-read-while-segment-is-written"
+NEXT_HOOK = {"wbegin": ("flush.start", "PARTIAL"), "write": ("PARTIAL", "flush.written"), "publish": ("flush.written", "flush.published"),
              "clear": ("flush.published", "flush.passive_cleared"), "clean": ("flush.passive_cleared", "flush.wal_cleaned")}
 
 
@@ -55,9 +63,9 @@ def features(b):
     return f
 
 
-def script_for(beh, root, cap):
+def script_for(beh, root, cap, partial_point=PARTIAL_POINTS[0]):
     steps = [{"op": "cmd", "text": 'DEFINE ev FIELDS { k: "int", ty: "string" }', "tag": ["define"]},
-             {"op": "park_at", "names": HOOKS}]
+             {"op": "park_at", "names": HOOKS + [partial_point]}]
     for i, x in enumerate(beh):
         a = x["a"]
         if a == "store":
@@ -65,7 +73,7 @@ def script_for(beh, root, cap):
         elif a == "recv":
             steps.append({"op": "wait_parked", "name": "flush.start", "tag": [i, "recv"]})
         elif a in NEXT_HOOK:
-            rel, nxt = NEXT_HOOK[a]
+            rel, nxt = (partial_point if h == "PARTIAL" else h for h in NEXT_HOOK[a])
             steps.append({"op": "release", "name": rel, "rearm": True})
             steps.append({"op": "wait_parked", "name": nxt, "tag": [i, a]})
         elif a == "done":
@@ -76,7 +84,7 @@ def script_for(beh, root, cap):
             steps.append({"op": "cmd", "text": "QUERY ev", "tag": [i, "q"], "timeout_ms": 8000})
             steps.append({"op": "cmd", "text": 'QUERY ev WHERE ty = "ev" COUNT', "tag": [i, "count"], "timeout_ms": 8000})
             steps.append({"op": "cmd", "text": "REPLAY ev FOR c1", "tag": [i, "replay"], "timeout_ms": 8000})
-    for h in HOOKS:
+    for h in HOOKS + [partial_point]:
         steps.append({"op": "release", "name": h})
     cfg = {"root": str(root / "db"), "fill_factor": cap, "event_per_zone": 1, "shards": 1, "k": 2, "threads": 6}
     return {"config": cfg, "out": str(root / "obs.ndjson"), "steps": steps}
@@ -129,7 +137,7 @@ def stage_r(chk, bindir, tier, stats):
         root.mkdir(parents=True)
         cap = beh[-1]["cap"]
         beh = beh[:-1]
-        rc, obs, err = core.run_vdrive(bindir, script_for(beh, root, cap), timeout=180)
+        rc, obs, err = core.run_vdrive(bindir, script_for(beh, root, cap, PARTIAL_POINTS[bi % 2]), timeout=180)
         by = {}
         bad_park = None
         for o in obs:
@@ -170,12 +178,17 @@ def stage_r(chk, bindir, tier, stats):
             # open finding: while a non-empty passive buffer exists, a read may lose the whole
             # segment flow (it then returns exactly what is held in memory)
             seg_flow_lost = x["passives"] > 0 and bool(set(x["ondisk"]) - set(x["inmem"]))
+            # open finding: a read that scans a directory the flusher is still writing may lose the rows of all segments
+            partial_lost = x.get("partial") and bool(set(x["ondisk"]) - set(x["inmem"]))
             ok = True
             for name, got in (("QUERY", sel), ("REPLAY", rp)):
                 if sorted(got) != before:
                     ok = False
                     desc = f"{where}: {name} returned {sorted(got)}, events applied before the read: {before}"
-                    if seg_flow_lost and sorted(got) == inmem:
+                    if partial_lost and sorted(got) == inmem:
+                        if chk.classify([PARTIAL_ID], desc, rep) == "known":
+                            stats["known_partial_segment"] += 1
+                    elif seg_flow_lost and sorted(got) == inmem:
                         if chk.classify(["C03-passive-buffer-read-loses-segment-rows"], desc, rep) == "known":
                             stats["known_segment_flow_lost"] += 1
                     else:
@@ -183,9 +196,12 @@ def stage_r(chk, bindir, tier, stats):
             if cnt != len(before):
                 ok = False
                 desc = f"{where}: COUNT = {cnt}, distinct events applied and selected: {len(before)}"
-                if cnt == x["count"]:
+                if cnt == x["count"] or (x.get("partial") and cnt == x["count"] + len(x["partial_evs"])):
                     if chk.classify(["C03-aggregate-double-count-during-flush"], desc, rep) == "known":
                         stats["known_double_count"] += 1
+                elif partial_lost and cnt == len(x["inmem"]):
+                    if chk.classify([PARTIAL_ID], desc, rep) == "known":
+                        stats["known_partial_segment"] += 1
                 elif seg_flow_lost and cnt == len(x["inmem"]):
                     if chk.classify(["C03-passive-buffer-read-loses-segment-rows"], desc, rep) == "known":
                         stats["known_segment_flow_lost"] += 1
@@ -199,6 +215,190 @@ def stage_r(chk, bindir, tier, stats):
     return r.distinct + r2.distinct + r3.distinct, r.generated + r2.generated + r3.generated
 
 
+RHOOKS = ["read.seglist_begin", "read.passive"]
+READ_TEXT = {"query": "QUERY ev", "count": 'QUERY ev WHERE ty = "ev" COUNT', "replay": "REPLAY ev FOR c1"}
+
+
+def gen_r(n, gen_len, seed):
+    d = core.WORK / "cfg"
+    d.mkdir(parents=True, exist_ok=True)
+    cfg = d / f"FlushReadGenR_{gen_len}.cfg"
+    cfg.write_text((core.SPEC / "FlushReadGenR.cfg").read_text().replace("GenLen = 16", f"GenLen = {gen_len}"))
+    r = core.tlc("FlushReadGenR", cfg, workers=1, simulate=n, depth=gen_len + 1, seed_=seed, timeout=300)
+    if r.error or r.violated:
+        core.log(r.out[-2000:])
+        raise core.ToolError(f"FlushReadGenR failed: {r.error or r.violated}")
+    seen, out = set(), []
+    for b in r.printed("BEH"):
+        # cut the behaviour after its last completed read: an unfinished read cannot be joined
+        last = max((i for i, x in enumerate(b) if x["a"] == "rend"), default=-1)
+        b = b[:last + 1]
+        key = json.dumps(b, sort_keys=True)
+        if last >= 0 and key not in seen:
+            seen.add(key)
+            out.append(b)
+    return out, r
+
+
+def features_r(b):
+    """classes of reader/flush interleavings: which flush steps happened between rbegin and rend, and
+    whether the model predicts a loss / a double count for the read"""
+    f = set()
+    inside = None
+    for x in b:
+        if x["a"] == "rbegin":
+            inside = []
+        elif x["a"] == "rend":
+            lost = bool(set(x["before"]) - set(x["selection"]))
+            twice = x["count"] > len(x["selection"])
+            f.add(("read", tuple(inside or ()), lost, twice))
+            inside = None
+        elif inside is not None and x["a"] in ("wbegin", "write", "publish", "clear", "done", "recv", "rsegs", "rpassive"):
+            inside.append(x["a"])
+    return f
+
+
+def script_for_r(beh, root, kind, partial_point=PARTIAL_POINTS[0]):
+    steps = [{"op": "cmd", "text": 'DEFINE ev FIELDS { k: "int", ty: "string" }', "tag": ["define"]},
+             {"op": "park_at", "names": HOOKS + RHOOKS + [partial_point]}]
+    n_mail = n_segs = n_pdone = 0
+    for i, x in enumerate(beh):
+        a = x["a"]
+        if a == "store":
+            steps.append({"op": "cmd", "text": f'STORE ev FOR c1 PAYLOAD {{"k": {x["k"]}, "ty": "ev"}}', "tag": [i, "store"]})
+        elif a == "recv":
+            steps.append({"op": "wait_parked", "name": "flush.start", "tag": [i, "recv"]})
+        elif a in NEXT_HOOK:
+            rel, nxt = (partial_point if h == "PARTIAL" else h for h in NEXT_HOOK[a])
+            steps.append({"op": "release", "name": rel, "rearm": True})
+            steps.append({"op": "wait_parked", "name": nxt, "tag": [i, a]})
+        elif a == "done":
+            steps.append({"op": "release", "name": "flush.wal_cleaned", "rearm": True})
+            steps.append({"op": "wait_parked", "name": "flush.done", "tag": [i, "done"]})
+            steps.append({"op": "release", "name": "flush.done", "rearm": True})
+        elif a == "rbegin":
+            n_mail += 1
+            steps.append({"op": "cmd_bg", "text": READ_TEXT[kind], "id": "r"})
+            steps.append({"op": "wait_count", "name": "read.mailbox_done", "n": n_mail, "tag": [i, "rbegin"]})
+        elif a == "rsegs":
+            n_segs += 1
+            steps.append({"op": "drive_until", "name": "read.seglist_begin", "until": "read.segments_done", "n": n_segs, "tag": [i, "rsegs"]})
+        elif a == "rpassive":
+            n_pdone += 1
+            steps.append({"op": "wait_parked", "name": "read.passive", "tag": [i, "rpassive_at"]})
+            steps.append({"op": "release", "name": "read.passive", "rearm": True})
+            steps.append({"op": "wait_count", "name": "read.passive_done", "n": n_pdone, "tag": [i, "rpassive"]})
+        elif a == "rend":
+            steps.append({"op": "join_bg", "id": "r", "tag": [i, "rend"], "timeout_ms": 8000})
+    for h in HOOKS + RHOOKS + [partial_point]:
+        steps.append({"op": "release", "name": h})
+    cfg = {"root": str(root / "db"), "fill_factor": 2, "event_per_zone": 1, "shards": 1, "k": 2, "threads": 8}
+    return {"config": cfg, "out": str(root / "obs.ndjson"), "steps": steps}
+
+
+def stage_r2(chk, bindir, tier, stats):
+    """forced schedules in which the reader's own steps interleave with the flush worker's"""
+    q = tier == "quick"
+    behs, r = gen_r(700 if q else 5000, 16, core.seed() + 7)
+    behs2, r2 = gen_r(300 if q else 2500, 24, core.seed() + 8)
+    allb = behs + behs2
+    random.Random(core.seed() + 9).shuffle(allb)
+    chosen, covered = [], set()
+    for b in allb:
+        f = features_r(b)
+        if f - covered:
+            chosen.append(b)
+            covered |= f
+    limit = 50 if q else 500
+    chosen = chosen[:limit]
+    for b in allb:
+        if len(chosen) >= limit:
+            break
+        if b not in chosen:
+            chosen.append(b)
+    core.log(f"[C03] reader-interleaved: {len(allb)} schedules from TLC, {len(chosen)} replayed, {len(covered)} interleaving classes")
+    for bi, beh in enumerate(chosen):
+        kind = ["query", "count", "query", "count", "replay"][bi % 5]
+        root = core.WORK / "c03" / f"r{bi}"
+        if root.exists():
+            shutil.rmtree(root)
+        root.mkdir(parents=True)
+        rc, obs, err = core.run_vdrive(bindir, script_for_r(beh, root, kind, PARTIAL_POINTS[bi % 2]), timeout=180)
+        by = {}
+        drift = None
+        for o in obs:
+            t = o.get("tag")
+            if isinstance(t, list) and len(t) == 2 and isinstance(t[0], int):
+                by[(t[0], t[1])] = o
+                if (o.get("op") == "wait_parked" and not o.get("parked")) or (o.get("op") in ("wait_count", "drive_until") and not o.get("reached")):
+                    drift = drift or (t, o.get("name"))
+        rep = {"behaviour": beh, "read": READ_TEXT[kind]}
+        stats["r_schedules"] += 1
+        if rc != 0:
+            chk.violation(f"engine process ended with {rc} while replaying a reader-interleaved schedule: {err[-200:]}", rep)
+            continue
+        if drift:
+            # a step the model says is possible could not be forced: the code's step structure differs from the model's
+            stats["r_drift"] += 1
+            chk.violation(f"reader-interleaved schedule could not be forced: step {drift[0]} did not reach {drift[1]} "
+                          f"(the reader / flush step structure differs from spec/FlushRead.tla)", rep)
+            shutil.rmtree(root, ignore_errors=True)
+            continue
+        for i, x in enumerate(beh):
+            if x["a"] != "rend":
+                continue
+            stats["r_reads"] += 1
+            o = by.get((i, "rend"))
+            before = sorted(x["before"])
+            lost_m = sorted(set(x["before"]) - set(x["selection"]))
+            rsegs = [y for y in beh[:i] if y["a"] == "rsegs"][-1]
+            # the segment flow scanned an incomplete directory: as built the read may lose all its segment rows
+            partial = rsegs.get("partial") and len(x["mem_selection"]) < len(x["selection"])
+            where = f"{READ_TEXT[kind]} whose steps interleave with the flush (schedule step {i})"
+            if o is None or o.get("outcome") != "response" or o.get("status") != 200:
+                chk.violation(f"{where}: the read failed: {None if o is None else (o.get('outcome'), o.get('status'), o.get('message'))}", rep)
+                break
+            stored = {y["k"] for y in beh[:i] if y["a"] == "store"}      # issued before the read ended
+            if kind == "count":
+                got = o["rows"][0][0] if o.get("rows") else 0
+                anomalies = []
+                if lost_m:
+                    anomalies.append("C03-passive-buffer-read-after-release")
+                if x["count"] > len(x["selection"]):
+                    anomalies.append("C03-aggregate-double-count-during-flush")
+                desc = f"{where}: COUNT = {got}; events applied before the read: {len(before)}, stored when it ended: {len(stored)}"
+                allowed = {x["count"]: list(anomalies)}
+                if rsegs.get("partial"):
+                    allowed.setdefault(x["count"] + len(rsegs["partial_evs"]), list(dict.fromkeys(anomalies + ["C03-aggregate-double-count-during-flush"])))
+                    allowed.setdefault(x["mem_count"], [PARTIAL_ID])
+                if got in allowed and allowed[got]:
+                    if chk.classify(allowed[got], desc, rep) == "known":
+                        stats["r_known"] += 1
+                elif len(before) <= got <= len(stored):
+                    stats["r_reads_ok"] += 1
+                    if got != x["count"]:
+                        stats["r_model_mismatch"] += 1
+                else:
+                    chk.violation(desc + f"; as-built model predicts {x['count']}", rep)
+            else:
+                got = ks_of(o)
+                desc = f"{where}: returned {sorted(got)}, events applied before the read: {before}"
+                if set(before) <= set(got) <= stored and len(got) == len(set(got)):
+                    stats["r_reads_ok"] += 1
+                    if sorted(got) != sorted(x["selection"]):
+                        stats["r_model_mismatch"] += 1
+                elif lost_m and sorted(got) == sorted(x["selection"]):
+                    if chk.classify(["C03-passive-buffer-read-after-release"], desc, rep) == "known":
+                        stats["r_known"] += 1
+                elif partial and sorted(got) == sorted(x["mem_selection"]):
+                    if chk.classify([PARTIAL_ID], desc, rep) == "known":
+                        stats["r_known_partial"] += 1
+                else:
+                    chk.violation(desc + f"; as-built model predicts {sorted(x['selection'])}", rep)
+        shutil.rmtree(root, ignore_errors=True)
+    return r.distinct + r2.distinct, r.generated + r2.generated
+
+
 def stage_m(chk, tier):
     out = {}
     for name, cfg, must_hold in (("design_atomic", "FlushRead_design.cfg", True), ("design_free", "FlushRead_design_free.cfg", True),
@@ -207,7 +407,7 @@ def stage_m(chk, tier):
         r = core.tlc("FlushRead", cfg, workers=4, timeout=900, coverage=must_hold)
         if must_hold:
             core.tlc_ok(r, f"FlushRead/{cfg}")
-            for act in ("Store", "FlushRecv", "FlushWrite", "FlushPublish", "FlushClear", "FlushDone", "RBegin", "RSegList", "REnd"):
+            for act in ("Store", "FlushRecv", "FlushWriteBegin", "FlushWrite", "FlushPublish", "FlushClear", "FlushDone", "RBegin", "RSegList", "REnd"):
                 if r.action_cov.get(act, 0) == 0:
                     raise core.ToolError(f"vacuity: {act} never taken in {cfg}")
         elif r.violated != "ReadExactlyOnce":
@@ -223,19 +423,22 @@ def run(tier):
     stats = Counter()
     s1, t1 = stage_m(chk, tier)
     s2, t2 = stage_r(chk, bindir, tier, stats)
+    s3, t3 = stage_r2(chk, bindir, tier, stats)
+    s2, t2 = s2 + s3, t2 + t3
     stage_t(chk, bindir, tier, stats)
     if not chk.cov["samples"]:
         chk.sample({"forced_schedule_hooks": HOOKS, "note": "see stats for the number of schedules and reads"})
     chk.cov["states"] = s1 + s2
     chk.cov["transitions"] = t1 + t2
-    chk.cov["traces_validated_against_impl"] = stats["schedules"] + stats.get("concurrent_runs", 0)
-    chk.cov["evaluations"] = stats["reads"] + stats.get("concurrent_reads", 0)
-    chk.cov["distinct_nontrivial"] = stats["reads_during_flush_ok"] + stats["known_double_count"]
+    chk.cov["traces_validated_against_impl"] = stats["schedules"] + stats["r_schedules"] + stats.get("concurrent_runs", 0)
+    chk.cov["evaluations"] = stats["reads"] + stats["r_reads"] + stats.get("concurrent_reads", 0)
+    chk.cov["distinct_nontrivial"] = stats["reads_during_flush_ok"] + stats["known_double_count"] + stats["r_reads"]
     chk.cov["rule"] = ("one evaluation = one read (QUERY + COUNT + REPLAY) issued while the flush worker is parked at a named step of a "
-                       "TLC-generated schedule, or one read of a free-running concurrent run; non-trivial = issued while a flush was in progress")
+                       "TLC-generated schedule, one read whose own steps are forced to interleave with the flush worker's (stage R2), or one read of a "
+                       "free-running concurrent run; non-trivial = issued while a flush was in progress")
     chk.cov["stats"] = dict(stats)
-    chk.assumptions += ["the reader's own internal interleavings with flush steps are model-checked (Stage M) and sampled by free-running runs "
-                        "(Stage T); only schedules with an atomic reader are forced deterministically",
+    chk.assumptions += ["the reader's interleavings are forced at the grain of the reader hooks: the segment listing and the reads of all listed "
+                        "segments are one forced step (finer interleavings are model-checked in Stage M and sampled by Stage T)",
                         "one shard, one event type, capacity 2"]
     return chk.finish()
 
@@ -290,13 +493,19 @@ def stage_t(chk, bindir, tier, stats):
     for tag in ("MISSED", "UNDERCOUNT"):
         for i in verdict[tag]:
             x = by[i]
-            # free-running runs rotate constantly (capacity 2): a non-empty passive buffer exists at
-            # almost every read, which is the trigger of the open finding; the loss cannot be told
-            # apart from any other loss here, so it is attributed (Stage R keeps the sharp signature)
-            if chk.classify(["C03-passive-buffer-read-loses-segment-rows"],
-                            f"stage T {tag}: {x['kind']} read of run {x['run']}: acked before {len(x['before'])}, returned "
-                            f"{len(x.get('ks', []))} rows / count {x.get('count')}", {"record": x}) == "known":
-                stats["known_segment_flow_lost_concurrent"] += 1
+            # the open finding needs a passive buffer to be released while the read runs (hook counter
+            # flush.passive_cleared sampled before and after the read); a loss without that is new
+            desc = (f"stage T {tag}: {x['kind']} read of run {x['run']}: acked before {len(x['before'])}, returned "
+                    f"{len(x.get('ks', []))} rows / count {x.get('count')}, passive buffers released during the read: {x.get('released_during')}")
+            if (x.get("released_during") or 0) > 0:
+                if chk.classify(["C03-passive-buffer-read-after-release"], desc, {"record": x}) == "known":
+                    stats["known_late_passive_read_concurrent"] += 1
+            elif x.get("writing_during"):
+                # a segment directory was being written while the read ran (hook counters flush.start / flush.written)
+                if chk.classify([PARTIAL_ID], desc + ", a segment was being written during the read", {"record": x}) == "known":
+                    stats["known_partial_segment_concurrent"] += 1
+            else:
+                chk.violation(desc, {"record": x})
     for tag in ("FOREIGN",):
         for i in verdict[tag]:
             x = by[i]
